@@ -1,5 +1,5 @@
 //@PROBE file=src/utils/nms.rs test=verif_probe_nms_c14 clauses=nms
-//@BOUND lists of 0..=4 boxes exhaustively over a 16-box alphabet (coverage fractions computed by an independent f64 clipper, not by the library) (clustered, nested, duplicated, rotated - three of them handed over after gen_vertices() and a later edit of their public fields -, two invalid) and 1500 pseudo-random lists of 5..=14 boxes; with/without scores (scores from a 5-value grid, ties included); nms thresholds {0.1, 0.3, 0.5, 0.8}; score thresholds {None, below, inside, above the score range, 7.0 - between the box heights, which rank the boxes without a score}
+//@BOUND in pixel coordinates and again with the alphabet shrunk by 1e-3 (lists of 0..=3 boxes and 300 longer lists there): lists of 0..=4 boxes exhaustively over a 16-box alphabet (coverage fractions computed by an independent f64 clipper, not by the library) (clustered, nested, duplicated, rotated - three of them handed over after gen_vertices() and a later edit of their public fields -, two invalid) and 1500 pseudo-random lists of 5..=14 boxes; with/without scores (scores from a 5-value grid, ties included); nms thresholds {0.1, 0.3, 0.5, 0.8}; score thresholds {None, below, inside, above the score range, 7.0 - between the box heights, which rank the boxes without a score}
 #[cfg(test)]
 mod verif_probe_nms_c14 {
     // Bounded stand-in for the contract of nms() (for-loops with `continue`, enumerate() and HashSet are outside
@@ -7,8 +7,10 @@ mod verif_probe_nms_c14 {
     // statement; coverage fractions are computed by an independent f64 clipper (not the library's intersection()/too_far()).
     use super::*;
 
-    fn alphabet() -> Vec<Universal2DBox> {
-        vec![
+    /// the alphabet in pixel coordinates (scale 1) or shrunk to frame-normalised coordinates (scale 1e-3): coverage is a ratio, the
+    /// outcome does not depend on the unit
+    fn alphabet(scale: f32) -> Vec<Universal2DBox> {
+        let v = vec![
             Universal2DBox::new(10.0, 10.0, None, 1.0, 10.0),          // A
             Universal2DBox::new(10.0, 10.0, None, 1.0, 10.0),          // duplicate of A
             Universal2DBox::new(12.0, 10.0, None, 1.0, 10.0),          // heavy overlap with A
@@ -25,7 +27,8 @@ mod verif_probe_nms_c14 {
             Universal2DBox::new(51.75, 52.165, Some(1.0471976), 5.0, 2.0),                  // the same, shifted by 2.5 along its long side
             Universal2DBox::new(10.0, 10.0, None, 1.0, 0.0),           // invalid: zero height
             Universal2DBox::new(10.0, 10.0, None, -1.0, 10.0),         // invalid: negative aspect
-        ]
+        ];
+        v.into_iter().map(|b| Universal2DBox::new(b.xc * scale, b.yc * scale, b.angle, b.aspect, b.height * scale)).collect()
     }
 
     /// boxes 6, 7 and 9 are handed to nms() after gen_vertices() was called on them with ANOTHER geometry and their
@@ -33,7 +36,7 @@ mod verif_probe_nms_c14 {
     fn given(al: &[Universal2DBox]) -> Vec<Universal2DBox> {
         al.iter().enumerate().map(|(i, b)| {
             if i == 6 || i == 7 || i == 9 {
-                let mut g = Universal2DBox::new(b.xc + 40.0, b.yc - 25.0, Some(b.angle.unwrap() + 1.1), b.aspect * 2.0, b.height * 0.5);
+                let mut g = Universal2DBox::new(b.xc + 4.0 * b.height, b.yc - 2.5 * b.height, Some(b.angle.unwrap() + 1.1), b.aspect * 2.0, b.height * 0.5);
                 g.gen_vertices();
                 g.xc = b.xc; g.yc = b.yc; g.aspect = b.aspect; g.height = b.height; g.rotate_mut(b.angle.unwrap());
                 g
@@ -120,12 +123,14 @@ mod verif_probe_nms_c14 {
 
     #[test]
     fn verif_probe_nms_c14() {
-        let al = alphabet();
-        let gv = given(&al);
-        let scores: [f32; 5] = [0.2, 0.5, 0.5, 0.7, 0.9];
         let mut failures: Vec<String> = vec![];
         let mut cases = 0u64;
         let mut nontrivial = 0u64; // something dropped by suppression and something kept
+        // pixel coordinates, then the same alphabet shrunk to frame-normalised coordinates (box sizes 0.004..0.03): coverage is a ratio
+        for scale in [1.0f32, 1.0e-3] {
+        let al = alphabet(scale);
+        let gv = given(&al);
+        let scores: [f32; 5] = [0.2, 0.5, 0.5, 0.7, 0.9];
         // 7.0 lies above every score and between the heights of the alphabet (4..30): a box without a score passes ANY score threshold
         let sthrs: [Option<f32>; 5] = [None, Some(0.1), Some(0.5), Some(0.95), Some(7.0)];
         let mut run = |sel: &[usize], scored: bool, salt: usize, failures: &mut Vec<String>| {
@@ -139,15 +144,15 @@ mod verif_probe_nms_c14 {
                     match contract(&dets, &geo, thr, *st) {
                         Ok(k) => { if k > 0 && k < sel.len() { nontrivial += 1; } }
                         Err(e) => if failures.len() < 40 {
-                            failures.push(format!("PROBE input: nms boxes(alphabet index)={:?} scores={:?} nms_threshold={} score_threshold={:?}: {}",
-                                                  sel, dets.iter().map(|d| d.1).collect::<Vec<_>>(), thr, st, e));
+                            failures.push(format!("PROBE input: nms boxes(alphabet index, alphabet scaled by {})={:?} scores={:?} nms_threshold={} score_threshold={:?}: {}",
+                                                  scale, sel, dets.iter().map(|d| d.1).collect::<Vec<_>>(), thr, st, e));
                         },
                     }
                 }
             }
         };
         // exhaustive: all lists of length 0..=4 over the alphabet, every second one (by code) with scores
-        for len in 0usize..=4 {
+        for len in 0usize..=(if scale == 1.0 { 4 } else { 3 }) {
             let total = al.len().pow(len as u32);
             for code in 0..total {
                 let mut sel = vec![]; let mut x = code;
@@ -159,12 +164,13 @@ mod verif_probe_nms_c14 {
         // pseudo-random longer lists
         let mut s: u64 = 0x9E3779B97F4A7C15;
         let mut next = || { s ^= s << 13; s ^= s >> 7; s ^= s << 17; s };
-        for _ in 0..1500 {
+        for _ in 0..(if scale == 1.0 { 1500 } else { 300 }) {
             let len = 5 + (next() % 10) as usize;
             let sel: Vec<usize> = (0..len).map(|_| (next() % al.len() as u64) as usize).collect();
             let scored = next() % 2 == 0;
             let salt = (next() % 5) as usize;
             run(&sel, scored, salt, &mut failures);
+        }
         }
         eprintln!("PROBE cases={} nontrivial={}", cases, nontrivial);
         for f in failures.iter().take(20) { eprintln!("{}", f); }
